@@ -284,6 +284,12 @@ func capBomb(f, arg string) string {
 		if len(t) > 4 && strings.Trim(t, "0123456789.eE+-") == "" {
 			return "100"
 		}
+		// columns and expressions whose numeric value is large (dates, big ints, doubles)
+		for _, big := range []string{"c1", "c3", "c4", "c8", "c9", "bi", "bu", "NOW", "CURRENT", "@@", "pow", "exp", "18446744073709551615", "9223372036854775807", "2147483648", "4294967295", "65535", "32767", "99999"} {
+			if strings.Contains(arg, big) {
+				return "100"
+			}
+		}
 	}
 	return arg
 }
